@@ -1,327 +1,387 @@
-(* C09 - safety of the lock protocol: the inductive invariants behind mutex and no_residue.
-   Everything that does not mention validation is proved for both protocols (fx arbitrary). *)
-From Eupsv Require Import Base.Base Model.Lock Proofs.LockLib.
+(* C09 - safety of the lock protocol over a path of stacks: the inductive invariants behind mutex,
+   no_residue and no_residue_after_failure.  The case analyses of one call are in Proofs/LockNext*.v;
+   here they are lifted to the global state. *)
+From Eupsv Require Import Base.Base Model.Lock Proofs.LockLib Proofs.LockNext Proofs.LockNext2.
 From Coq Require Import Lia.
 
-(* program counters at which the process owns a lock file in the directory *)
-Definition has_file (l : loc) : bool :=
-  match l with
-  | LValidate | LHeld | LGive _ GIsdir | LGive _ GExistsF | LGive _ GRemove => true
-  | _ => false
-  end.
-
-(* program counters of a process that has created its file but not yet looked again, or is withdrawing *)
-Definition unvalidated (l : loc) : bool :=
-  match l with
-  | LValidate | LGive true GIsdir | LGive true GExistsF | LGive true GRemove => true
-  | _ => false
-  end.
-
-(* program counters of a process that is bound to create a file, or to remove the directory if it is
-   empty, before it does anything else *)
-Definition resp (l : loc) : bool :=
-  match l with
-  | LScanX | LCreate | LGive _ GCount | LGive _ GRmdir => true
-  | _ => false
-  end.
-
-Definition I0 (s : state) := forall x, In x (files s) -> dir s = true.
-Definition I1 (s : state) := forall p, has_file (pc s p) = true -> In p (files s).
-Definition I2 (s : state) := forall p, In p (files s) -> has_file (pc s p) = true.
-Definition IJ (s : state) := dir s = true -> files s <> [] \/ exists p, resp (pc s p) = true.
+(* a lock file lies in an existing lock directory *)
+Definition I0 (s : state) := forall k x, In x (files s k) -> dir s k = true.
+(* where a process thinks it has a lock file, it has one ... *)
+Definition I1 (cfg : config) (s : state) :=
+  forall p x k, owns (local_of s p) x = true -> nth_error (path_of cfg p) x = Some k -> In p (files s k).
+(* ... and nowhere else *)
+Definition I2 (cfg : config) (s : state) :=
+  forall p k, In p (files s k) -> exists x, nth_error (path_of cfg p) x = Some k /\ owns (local_of s p) x = true.
+(* an existing lock directory holds a file or has a process bound to fill or remove it *)
+Definition IJ (cfg : config) (s : state) :=
+  forall k, dir s k = true ->
+    files s k <> [] \/
+    exists p, resp (pc s p) = true /\ nth_error (path_of cfg p) (widx (local_of s p)) = Some k.
 Definition IN (s : state) := forall p, pc s p <> LHeldNoLock.
+Definition IW (cfg : config) (s : state) :=
+  forall p, nlk s p <= length (path_of cfg p) /\ (pc s p = LHeld -> nlk s p = length (path_of cfg p)).
+(* a process that has ended owns nothing *)
+Definition IT (s : state) := forall p, clean (local_of s p).
+(* while a lock is firm, an incompatible unrelated lock file on the same stack is unvalidated *)
 Definition I3 (cfg : config) (s : state) :=
-  forall a b, a <> b -> ~ related cfg a b -> (kind_of cfg a = Ex \/ kind_of cfg b = Ex) ->
-    pc s a = LHeld -> In b (files s) -> unvalidated (pc s b) = true.
+  forall a b x k, a <> b -> ~ related cfg a b -> (kind_of cfg a = Ex \/ kind_of cfg b = Ex) ->
+    nth_error (path_of cfg a) x = Some k -> firm (local_of s a) x = true -> In b (files s k) ->
+    unvalidated (pc s b) = true /\ nth_error (path_of cfg b) (nlk s b) = Some k.
 
-(* ---- one step, seen through its effect on the four fields *)
+(* ---- one step, seen through its effect *)
 
-Lemma step_fields fx cfg s p c :
-  exists d' fs' l' i',
-    next fx cfg (dir s) (files s) (pc s p) (tries s p) p c = (d', fs', (l', i')) /\
-    step_gen fx cfg s p c = {| dir := d'; files := fs'; pc := upd (pc s) p l'; tries := upd (tries s) p i' |}.
+Lemma step_cases fx fr cfg s p c :
+  (exists k d' fs' lo',
+      nth_error (path_of cfg p) (widx (local_of s p)) = Some k /\
+      next fx fr cfg (dir s k) (files s k) (local_of s p) p c = (d', fs', lo') /\
+      step_gen fx fr cfg s p c = put (write s k d' fs') p lo') \/
+  (nth_error (path_of cfg p) (widx (local_of s p)) = None /\
+   step_gen fx fr cfg s p c = put s p (nostack (local_of s p))).
 Proof.
-  unfold step_gen. destruct (next fx cfg (dir s) (files s) (pc s p) (tries s p) p c) as [[d' fs'] [l' i']].
-  now exists d', fs', l', i'.
+  unfold step_gen. destruct (nth_error (path_of cfg p) (widx (local_of s p))) as [k|] eqn:W.
+  - left. destruct (next fx fr cfg (dir s k) (files s k) (local_of s p) p c) as [[d' fs'] lo'] eqn:N.
+    exists k, d', fs', lo'. auto.
+  - right. auto.
 Qed.
 
-(* case analysis of [next]: destruct the program counter, then every test the branch makes *)
-Ltac next_cases N :=
-  unfold next, give_race, after_give, retry in N;
-  repeat (cbv beta iota in N;
-          match type of N with
-          | context [match ?x with _ => _ end] =>
-              match x with
-              | _ => is_var x; destruct x
-              | _ => let E := fresh "E" in destruct x eqn:E
-              end
-          end);
-  cbv beta iota in N; inversion N; subst; clear N.
+Lemma local_put_same s p lo : local_of (put s p lo) p = lo.
+Proof. unfold local_of, put. cbn. rewrite !upd_same. now destruct lo. Qed.
 
-Ltac bool_facts :=
-  repeat match goal with
-  | H : _ && _ = true |- _ => apply andb_true_iff in H; destruct H
-  | H : _ && _ = false |- _ => apply andb_false_iff in H
-  | H : mem _ _ = true |- _ => apply mem_In in H
-  | H : mem _ _ = false |- _ => apply mem_false in H
-  end.
+Lemma local_put_other s p lo q : q <> p -> local_of (put s p lo) q = local_of s q.
+Proof. intro H. unfold local_of, put. cbn. now rewrite !upd_other. Qed.
 
-(* how the set of lock files can change *)
-Lemma next_files fx cfg d fs l i p c d' fs' l' i' :
-  next fx cfg d fs l i p c = (d', fs', (l', i')) ->
-  fs' = fs \/
-  (l = LCreate /\ d = true /\ fs' = add p fs /\ l' = (if fx then LValidate else LHeld)) \/
-  (exists b, l = LGive b GRemove /\ In p fs /\ fs' = rem p fs /\ l' = LGive b GCount).
-Proof.
-  intro N. next_cases N; bool_facts;
-    first [ now left | right; left; now auto | right; right; eexists; now eauto ].
-Qed.
+Lemma local_write s k d fs q : local_of (write s k d fs) q = local_of s q.
+Proof. reflexivity. Qed.
 
-(* how the existence of the directory can change *)
-Lemma next_dir fx cfg d fs l i p c d' fs' l' i' :
-  next fx cfg d fs l i p c = (d', fs', (l', i')) ->
-  d' = d \/
-  (l = LMkdir /\ d = false /\ d' = true /\ l' = LScanX /\ fs' = fs) \/
-  (exists b, l = LGive b GRmdir /\ d = true /\ fs = [] /\ d' = false /\ fs' = []).
-Proof.
-  intro N. next_cases N; bool_facts;
-    first [ now left | right; left; now auto | right; right; eexists; now eauto 10 ].
-Qed.
-
-Lemma filter_nonempty {A} (f : A -> bool) l : filter f l <> [] -> l <> [].
-Proof. intros H E. subst. now apply H. Qed.
-
-(* a process at a responsible program counter stays responsible, or leaves a file behind, as long as
-   the directory exists *)
-Lemma next_resp fx cfg d fs l i p c d' fs' l' i' :
-  next fx cfg d fs l i p c = (d', fs', (l', i')) ->
-  resp l = true -> d = true -> d' = true -> fs' <> [] \/ resp l' = true.
-Proof.
-  intros N R D D'. next_cases N; cbn in R; try discriminate;
-    first [ now right
-          | left; apply add_nonempty
-          | left; discriminate
-          | left; eapply filter_nonempty; rewrite E; discriminate ].
-Qed.
-
-(* what the stepping process itself owns afterwards *)
-Lemma next_I1 fx cfg d fs l i p c d' fs' l' i' :
-  next fx cfg d fs l i p c = (d', fs', (l', i')) ->
-  (has_file l = true -> In p fs) -> has_file l' = true -> In p fs'.
-Proof.
-  intros N H1 H. next_cases N; cbn in H; try discriminate;
-    first [ apply in_add; now left | apply H1; reflexivity ].
-Qed.
-
-Lemma next_I2 fx cfg d fs l i p c d' fs' l' i' :
-  next fx cfg d fs l i p c = (d', fs', (l', i')) ->
-  (In p fs -> has_file l = true) -> (In p fs -> d = true) -> In p fs' -> has_file l' = true.
-Proof.
-  intros N H2 H0 Hin. next_cases N; bool_facts; try reflexivity;
-    try (exfalso; now apply (not_in_rem p fs));
-    try (specialize (H2 Hin); cbn in H2; discriminate);
-    try (specialize (H0 Hin); discriminate);
-    try (exfalso; match goal with H : _ \/ _ |- _ => destruct H as [H|H]; bool_facts end;
-         [ specialize (H0 Hin); congruence | contradiction ]).
-Qed.
-
-(* ---- the invariants are inductive *)
+Lemma files_put s p lo k : files (put s p lo) k = files s k.
+Proof. reflexivity. Qed.
+Lemma dir_put s p lo k : dir (put s p lo) k = dir s k.
+Proof. reflexivity. Qed.
+Lemma files_write_same s k d fs : files (write s k d fs) k = fs.
+Proof. cbn. apply upd_same. Qed.
+Lemma files_write_other s k d fs k' : k' <> k -> files (write s k d fs) k' = files s k'.
+Proof. intro H. cbn. now apply upd_other. Qed.
+Lemma dir_write_same s k d fs : dir (write s k d fs) k = d.
+Proof. cbn. apply upd_same. Qed.
+Lemma dir_write_other s k d fs k' : k' <> k -> dir (write s k d fs) k' = dir s k'.
+Proof. intro H. cbn. now apply upd_other. Qed.
+Lemma pc_local s p : pc s p = lpc (local_of s p).
+Proof. reflexivity. Qed.
+Lemma nlk_local s p : nlk s p = lnl (local_of s p).
+Proof. reflexivity. Qed.
+Lemma cur_local s p : cur s p = lcur (local_of s p).
+Proof. reflexivity. Qed.
 
 Section Inductive.
-Variable fx : bool.
-Variable cfg : config.
-Notation stp := (step_gen fx cfg).
+Variables (fx fr : bool) (cfg : config).
+Notation stp := (step_gen fx fr cfg).
 
-Lemma init_inv : I0 init /\ I1 init /\ I2 init /\ IJ init /\ IN init /\ I3 cfg init.
+(* whatever the step, the lock files of the other processes stay where they are *)
+Lemma files_other s p c x k : x <> p -> (In x (files (stp s p c) k) <-> In x (files s k)).
 Proof.
-  repeat split; red; cbn; try discriminate; try contradiction.
+  intro Hne. destruct (step_cases fx fr cfg s p c) as [(k0 & d' & fs' & lo' & W & N & E) | (W & E)]; rewrite E.
+  - rewrite files_put. destruct (Nat.eq_dec k k0) as [->|Hk].
+    + rewrite files_write_same.
+      destruct (next_files _ _ _ _ _ _ _ _ _ _ _ N) as [F | [(_ & _ & F & _) | (m & _ & _ & F & _)]]; subst fs'.
+      * tauto.
+      * rewrite in_add. tauto.
+      * rewrite in_rem. tauto.
+    + now rewrite files_write_other.
+  - now rewrite files_put.
+Qed.
+
+Lemma local_other s p c x : x <> p -> local_of (stp s p c) x = local_of s x.
+Proof.
+  intro Hne. destruct (step_cases fx fr cfg s p c) as [(k0 & d' & fs' & lo' & W & N & E) | (W & E)]; rewrite E.
+  - now rewrite local_put_other, local_write.
+  - now rewrite local_put_other.
+Qed.
+
+Lemma init_inv : I0 init /\ I1 cfg init /\ I2 cfg init /\ IJ cfg init /\ IN init /\ IW cfg init /\ IT init /\ I3 cfg init.
+Proof.
+  unfold I0, I1, I2, IJ, IN, IW, IT, I3, clean, owns, firm, local_of. cbn.
+  repeat split; intros; try discriminate; try contradiction; try lia.
 Qed.
 
 Lemma step_I0 s p c : I0 s -> I0 (stp s p c).
 Proof.
-  intros H0 x. destruct (step_fields fx cfg s p c) as (d' & fs' & l' & i' & N & E). rewrite E. cbn [dir files].
-  intro Hin.
-  destruct (next_dir _ _ _ _ _ _ _ _ _ _ _ _ N) as [D | [(_ & _ & D & _) | (b & _ & _ & _ & _ & F)]].
-  - subst d'. destruct (next_files _ _ _ _ _ _ _ _ _ _ _ _ N) as [F | [(_ & D & _) | (b & _ & Hp & _)]].
-    + subst fs'. now apply (H0 x).
-    + assumption.
-    + now apply (H0 p).
-  - assumption.
-  - subst fs'. contradiction.
+  intros H0 k x. destruct (step_cases fx fr cfg s p c) as [(k0 & d' & fs' & lo' & W & N & E) | (W & E)]; rewrite E.
+  - rewrite files_put, dir_put. destruct (Nat.eq_dec k k0) as [->|Hk].
+    + rewrite files_write_same, dir_write_same. intro Hin.
+      destruct (next_dir _ _ _ _ _ _ _ _ _ _ _ N) as [D | [(_ & _ & D & _) | (m & _ & _ & _ & _ & F)]].
+      * subst d'. destruct (next_files _ _ _ _ _ _ _ _ _ _ _ N) as [F | [(_ & D & _) | (m & _ & Hp & _)]].
+        -- subst fs'. now apply (H0 k0 x).
+        -- assumption.
+        -- now apply (H0 k0 p).
+      * assumption.
+      * subst fs'. contradiction.
+    + rewrite files_write_other, dir_write_other by assumption. apply H0.
+  - rewrite files_put, dir_put. apply H0.
 Qed.
 
-Lemma files_other s p c x : x <> p -> (In x (files (stp s p c)) <-> In x (files s)).
+Lemma step_IW s p c : IW cfg s -> IW cfg (stp s p c).
 Proof.
-  intro Hne. destruct (step_fields fx cfg s p c) as (d' & fs' & l' & i' & N & E). rewrite E. cbn [files].
-  destruct (next_files _ _ _ _ _ _ _ _ _ _ _ _ N) as [F | [(_ & _ & F & _) | (b & _ & _ & F & _)]]; subst fs'.
-  - tauto.
-  - rewrite in_add. tauto.
-  - rewrite in_rem. tauto.
+  intros HW q. destruct (Nat.eq_dec q p) as [->|Hne].
+  - destruct (HW p) as [L H]. rewrite pc_local, nlk_local in *.
+    destruct (step_cases fx fr cfg s p c) as [(k0 & d' & fs' & lo' & W & N & E) | (W & E)]; rewrite E;
+      rewrite local_put_same.
+    + apply (next_IW _ _ _ _ _ _ _ _ _ _ _ N); try assumption. now apply nth_error_lt in W.
+    + now apply nostack_IW.
+  - rewrite pc_local, nlk_local, (local_other s p c q Hne). apply HW.
 Qed.
 
-Lemma pc_other s p c x : x <> p -> pc (stp s p c) x = pc s x.
+Hypothesis WF : wf cfg.
+
+Lemma step_I1 s p c : I1 cfg s -> I1 cfg (stp s p c).
 Proof.
-  intro Hne. destruct (step_fields fx cfg s p c) as (d' & fs' & l' & i' & N & E). rewrite E. cbn [pc].
-  now apply upd_other.
+  intros H1 q x k Ho Hk. destruct (Nat.eq_dec q p) as [->|Hne].
+  - destruct (step_cases fx fr cfg s p c) as [(k0 & d' & fs' & lo' & W & N & E) | (W & E)]; rewrite E in Ho |- *;
+      rewrite local_put_same in Ho; rewrite files_put.
+    + destruct (Nat.eq_dec x (widx (local_of s p))) as [->|Hx].
+      * assert (k = k0) by congruence. subst k. rewrite files_write_same.
+        apply (next_I1 _ _ _ _ _ _ _ _ _ _ _ N); [|assumption]. intro Ho'. now apply (H1 p (widx (local_of s p)) k0).
+      * assert (Hk' : k <> k0).
+        { intro. subst k. apply Hx. now apply (nodup_nth_eq _ _ _ k0 (WF p)). }
+        rewrite files_write_other by assumption.
+        rewrite (next_owns_other _ _ _ _ _ _ _ _ _ _ _ _ N Hx) in Ho. now apply (H1 p x k).
+    + rewrite owns_nostack in Ho. now apply (H1 p x k).
+  - rewrite (local_other s p c q Hne) in Ho. apply (files_other s p c q k Hne). now apply (H1 q x k).
 Qed.
 
-Lemma step_I1 s p c : I1 s -> I1 (stp s p c).
+Lemma step_I2 s p c : I0 s -> I2 cfg s -> I2 cfg (stp s p c).
 Proof.
-  intros H1 x. destruct (Nat.eq_dec x p) as [->|Hne].
-  - destruct (step_fields fx cfg s p c) as (d' & fs' & l' & i' & N & E). rewrite E. cbn [pc files].
-    rewrite upd_same. apply (next_I1 _ _ _ _ _ _ _ _ _ _ _ _ N). apply H1.
-  - rewrite (pc_other s p c x Hne), (files_other s p c x Hne). apply H1.
+  intros H0 H2 q k Hin. destruct (Nat.eq_dec q p) as [->|Hne].
+  - destruct (step_cases fx fr cfg s p c) as [(k0 & d' & fs' & lo' & W & N & E) | (W & E)]; rewrite E in Hin |- *;
+      rewrite local_put_same; rewrite files_put in Hin.
+    + destruct (Nat.eq_dec k k0) as [->|Hk].
+      * rewrite files_write_same in Hin. exists (widx (local_of s p)). split; [assumption|].
+        apply (next_I2 _ _ _ _ _ _ _ _ _ _ _ N); try assumption.
+        -- intro Hp. destruct (H2 p k0 Hp) as (x & Hx & Ho).
+           now rewrite <- (nodup_nth_eq _ _ _ k0 (WF p) Hx W).
+        -- apply H0.
+      * rewrite files_write_other in Hin by assumption.
+        destruct (H2 p k Hin) as (x & Hx & Ho). exists x. split; [assumption|].
+        rewrite (next_owns_other _ _ _ _ _ _ _ _ _ _ _ _ N); [assumption|]. intro. subst x. congruence.
+    + destruct (H2 p k Hin) as (x & Hx & Ho). exists x. split; [assumption|]. now rewrite owns_nostack.
+  - rewrite (local_other s p c q Hne). apply H2. now apply (files_other s p c q k Hne).
 Qed.
 
-Lemma step_I2 s p c : I0 s -> I2 s -> I2 (stp s p c).
+Lemma step_IJ s p c : IJ cfg s -> IJ cfg (stp s p c).
 Proof.
-  intros H0 H2 x. destruct (Nat.eq_dec x p) as [->|Hne].
-  - destruct (step_fields fx cfg s p c) as (d' & fs' & l' & i' & N & E). rewrite E. cbn [pc files].
-    rewrite upd_same. apply (next_I2 _ _ _ _ _ _ _ _ _ _ _ _ N); [apply H2 | apply H0].
-  - rewrite (pc_other s p c x Hne), (files_other s p c x Hne). apply H2.
-Qed.
-
-Lemma step_IJ s p c : IJ s -> IJ (stp s p c).
-Proof.
-  intros HJ. red. destruct (step_fields fx cfg s p c) as (d' & fs' & l' & i' & N & E). rewrite E.
-  cbn [dir files pc]. intro D'.
-  destruct (next_dir _ _ _ _ _ _ _ _ _ _ _ _ N) as [D | [(_ & _ & _ & L & _) | (b & _ & _ & _ & D & _)]].
-  - assert (D0 : dir s = true) by congruence. destruct (HJ D0) as [Hne | [q Hq]].
-    + destruct (next_files _ _ _ _ _ _ _ _ _ _ _ _ N) as [F | [(_ & _ & F & _) | (b & _ & _ & F & L)]]; subst fs'.
-      * now left.
-      * left. apply add_nonempty.
-      * right. exists p. rewrite upd_same. subst l'. reflexivity.
-    + destruct (Nat.eq_dec q p) as [->|Hqp].
-      * destruct (next_resp _ _ _ _ _ _ _ _ _ _ _ _ N Hq D0 D') as [F|R]; [now left|].
-        right. exists p. now rewrite upd_same.
-      * right. exists q. now rewrite upd_other.
-  - right. exists p. rewrite upd_same. subst l'. reflexivity.
-  - congruence.
+  intros HJ k. destruct (step_cases fx fr cfg s p c) as [(k0 & d' & fs' & lo' & W & N & E) | (W & E)].
+  - rewrite E, dir_put, files_put. destruct (Nat.eq_dec k k0) as [->|Hk].
+    + rewrite dir_write_same, files_write_same. intro D'.
+      assert (keep : forall q, q <> p -> resp (pc s q) = true /\ nth_error (path_of cfg q) (widx (local_of s q)) = Some k0 ->
+                     exists q', resp (pc (put (write s k0 d' fs') p lo') q') = true /\
+                       nth_error (path_of cfg q') (widx (local_of (put (write s k0 d' fs') p lo') q')) = Some k0).
+      { intros q Hq [R Wq]. exists q. rewrite pc_local, local_put_other, local_write by assumption. auto. }
+      assert (me : resp (lpc lo') = true /\ widx lo' = widx (local_of s p) ->
+                   exists q', resp (pc (put (write s k0 d' fs') p lo') q') = true /\
+                     nth_error (path_of cfg q') (widx (local_of (put (write s k0 d' fs') p lo') q')) = Some k0).
+      { intros [R Wp]. exists p. rewrite pc_local, local_put_same. rewrite Wp. auto. }
+      destruct (next_dir _ _ _ _ _ _ _ _ _ _ _ N) as [D | [(_ & _ & _ & L1 & L2 & _) | (m & _ & _ & _ & D & _)]].
+      * assert (D0 : dir s k0 = true) by congruence. destruct (HJ k0 D0) as [Hne | (q & R & Wq)].
+        -- destruct (next_files _ _ _ _ _ _ _ _ _ _ _ N) as [F | [(_ & _ & F & _) | (m & _ & _ & F & L)]]; subst fs'.
+           ++ now left.
+           ++ left. apply add_nonempty.
+           ++ right. now apply me.
+        -- destruct (Nat.eq_dec q p) as [->|Hqp].
+           ++ destruct (next_resp _ _ _ _ _ _ _ _ _ _ _ N R D0 D') as [F|R']; [now left|]. right. now apply me.
+           ++ right. now apply (keep q).
+      * right. apply me. now split.
+      * congruence.
+    + rewrite dir_write_other, files_write_other by assumption. intro D.
+      destruct (HJ k D) as [Hne | (q & R & Wq)]; [now left|]. right.
+      assert (Hqp : q <> p) by (intro; subst q; congruence).
+      exists q. rewrite pc_local, local_put_other, local_write by assumption. auto.
+  - rewrite E, dir_put, files_put. intro D. destruct (HJ k D) as [Hne | (q & R & Wq)]; [now left|]. right.
+    exists q. destruct (Nat.eq_dec q p) as [->|Hqp].
+    + rewrite pc_local, local_put_same. rewrite (nostack_same (local_of s p)) by now left. auto.
+    + rewrite pc_local, local_put_other by assumption. auto.
 Qed.
 
 End Inductive.
 
-(* ---- the part that needs the re-validation of the repaired protocol *)
-
-Lemma next_IN cfg d fs l i p c d' fs' l' i' :
-  next true cfg d fs l i p c = (d', fs', (l', i')) -> l <> LHeldNoLock -> l' <> LHeldNoLock.
-Proof. intros N H. next_cases N; try discriminate; try assumption. Qed.
-
-(* Held is entered only from a validation that saw no conflict *)
-Lemma next_to_held cfg d fs l i p c d' fs' l' i' :
-  next true cfg d fs l i p c = (d', fs', (l', i')) -> l' = LHeld ->
-  (l = LValidate /\ conflict cfg p fs = false /\ fs' = fs) \/ (l = LHeld /\ False).
-Proof. intros N H. next_cases N; try discriminate. left. auto. Qed.
-
-(* a process whose file is visible while an incompatible unrelated lock is held cannot get past
-   its validation *)
-Lemma next_unvalidated cfg d fs l i p c d' fs' l' i' :
-  next true cfg d fs l i p c = (d', fs', (l', i')) ->
-  (In p fs -> unvalidated l = true) -> (In p fs -> d = true) -> conflict cfg p fs = true ->
-  In p fs' -> unvalidated l' = true.
-Proof.
-  intros N HU H0 HC Hin. next_cases N; bool_facts; try reflexivity; try congruence;
-    try (exfalso; now apply (not_in_rem p fs));
-    try (specialize (HU Hin); cbn in HU; discriminate);
-    try (specialize (HU Hin); destruct backoff; cbn in HU |- *; congruence);
-    try (specialize (H0 Hin); discriminate);
-    try (exfalso; match goal with H : _ \/ _ |- _ => destruct H as [H|H]; bool_facts end;
-         [ specialize (H0 Hin); congruence | contradiction ]).
-Qed.
+(* ---- the parts that need the second look, and the release on failure *)
 
 Section Repaired.
-Variable cfg : config.
-Notation stp := (step_gen true cfg).
+Variables (fr : bool) (cfg : config).
+Notation stp := (step_gen true fr cfg).
+Hypothesis WF : wf cfg.
 
 Lemma step_IN s p c : IN s -> IN (stp s p c).
 Proof.
-  intros H x. destruct (Nat.eq_dec x p) as [->|Hne].
-  - destruct (step_fields true cfg s p c) as (d' & fs' & l' & i' & N & E). rewrite E. cbn [pc].
-    rewrite upd_same. apply (next_IN _ _ _ _ _ _ _ _ _ _ _ N). apply H.
-  - rewrite (pc_other true cfg s p c x Hne). apply H.
+  intros H q. destruct (Nat.eq_dec q p) as [->|Hne].
+  - rewrite pc_local.
+    destruct (step_cases true fr cfg s p c) as [(k0 & d' & fs' & lo' & W & N & E) | (W & E)]; rewrite E, local_put_same.
+    + apply (next_IN _ _ _ _ _ _ _ _ _ _ N). apply H.
+    + apply nostack_IN. apply H.
+  - rewrite pc_local, (local_other true fr cfg s p c q Hne). apply H.
 Qed.
 
-Lemma step_I3 s p c : I0 s -> I1 s -> I3 cfg s -> I3 cfg (stp s p c).
+Lemma firm_owns lo x : firm lo x = true -> owns lo x = true.
 Proof.
-  intros H0 H1 H3 a b Hab Hrel HK Ha Hb.
+  destruct lo as [l i n j]. unfold firm, owns. cbn [lpc lnl lcur]. destruct l; try discriminate; try (intro H; exact H).
+  - intro H. apply Nat.ltb_lt in H. apply Nat.leb_le. lia.
+  - destruct m; try discriminate. intro H. destruct (gfile g); [|exact H].
+    apply Nat.ltb_lt in H. apply Nat.leb_le. lia.
+Qed.
+
+Lemma firm_widx lo x : firm lo x = true -> x <> widx lo.
+Proof.
+  destruct lo as [l i n j]. unfold firm, widx. cbn [lpc lnl lcur].
+  destruct l; try discriminate; try (intro H; apply Nat.ltb_lt in H; lia).
+  destruct m; try discriminate. intro H; apply Nat.ltb_lt in H; lia.
+Qed.
+
+Lemma unvalidated_widx lo : unvalidated (lpc lo) = true -> widx lo = lnl lo.
+Proof. destruct lo as [l i n j]. unfold widx. cbn [lpc]. destruct l; try discriminate; try reflexivity. destruct m, g; try discriminate; reflexivity. Qed.
+
+Lemma step_I3 s p c : I0 s -> I1 cfg s -> I3 cfg s -> I3 cfg (stp s p c).
+Proof.
+  intros H0 H1 H3 a b x k Hab Hrel HK Hx Hf Hb.
   destruct (Nat.eq_dec a p) as [->|Hap].
-  - (* the stepping process is the holder: it has just validated, so it saw no incompatible lock *)
-    exfalso. assert (Hbp : b <> p) by congruence.
-    apply (files_other true cfg s p c b Hbp) in Hb.
-    destruct (step_fields true cfg s p c) as (d' & fs' & l' & i' & N & E). rewrite E in Ha. cbn [pc] in Ha.
-    rewrite upd_same in Ha.
-    destruct (next_to_held _ _ _ _ _ _ _ _ _ _ _ N Ha) as [(L & C & F) | (_ & [])].
-    assert (HR : root_of cfg p <> Some b) by (intro; apply Hrel; now left).
-    rewrite (conflict_if_other cfg p b (files s) Hb Hbp HR HK) in C. discriminate.
-  - rewrite (pc_other true cfg s p c a Hap) in Ha.
+  - (* the stepping process owns the firm lock *)
+    assert (Hbp : b <> p) by congruence.
+    apply (files_other true fr cfg s p c b k Hbp) in Hb.
+    rewrite pc_local, nlk_local, (local_other true fr cfg s p c b Hbp), <- pc_local, <- nlk_local.
+    destruct (step_cases true fr cfg s p c) as [(k0 & d' & fs' & lo' & W & N & E) | (W & E)];
+      rewrite E, local_put_same in Hf.
+    + destruct (next_firm _ _ _ _ _ _ _ _ _ _ _ N Hf) as [F | (L & Xn & Wn & C & _)].
+      * now apply (H3 p b x k).
+      * exfalso. assert (k = k0) by congruence. subst k.
+        assert (HR : root_of cfg p <> Some b) by (intro; apply Hrel; now left).
+        rewrite (conflict_if_other cfg p b (files s k0) Hb Hbp HR HK) in C. discriminate.
+    + apply firm_nostack in Hf. now apply (H3 p b x k).
+  - rewrite (local_other true fr cfg s p c a Hap) in Hf.
     destruct (Nat.eq_dec b p) as [->|Hbp].
-    + (* the stepping process is the one whose file the holder must not overlook *)
-      assert (Hain : In a (files s)) by (apply H1; now rewrite Ha).
+    + (* the stepping process owns the file the firm holder must not overlook *)
+      assert (Hain : In a (files s k)) by (apply (H1 a x k); [now apply firm_owns | assumption]).
       assert (HR : root_of cfg p <> Some a) by (intro; apply Hrel; now right).
       assert (HK' : kind_of cfg p = Ex \/ kind_of cfg a = Ex) by tauto.
-      pose proof (conflict_if_other cfg p a (files s) Hain Hap HR HK') as HC.
-      destruct (step_fields true cfg s p c) as (d' & fs' & l' & i' & N & E). rewrite E in Hb |- *.
-      cbn [pc files] in Hb |- *. rewrite upd_same.
-      apply (next_unvalidated _ _ _ _ _ _ _ _ _ _ _ N); try assumption.
-      * intro Hp. now apply (H3 a p).
-      * apply H0.
-    + (* a third process steps *)
-      rewrite (pc_other true cfg s p c b Hbp). apply (files_other true cfg s p c b Hbp) in Hb.
-      now apply (H3 a b).
+      rewrite pc_local, nlk_local.
+      destruct (step_cases true fr cfg s p c) as [(k0 & d' & fs' & lo' & W & N & E) | (W & E)];
+        rewrite E in Hb |- *; rewrite local_put_same; rewrite files_put in Hb.
+      * destruct (Nat.eq_dec k k0) as [->|Hk].
+        -- rewrite files_write_same in Hb.
+           pose proof (conflict_if_other cfg p a (files s k0) Hain Hap HR HK') as HC.
+           destruct (next_pending _ _ _ _ _ _ _ _ _ _ N) as (U & Ln & Wn); try assumption.
+           ++ intro Hp. now apply (H3 a p x k0).
+           ++ apply H0.
+           ++ split; [assumption|]. rewrite Ln, <- Wn. assumption.
+        -- exfalso. rewrite files_write_other in Hb by assumption.
+           destruct (H3 a p x k Hab Hrel HK Hx Hf Hb) as [U Wk].
+           rewrite pc_local in U. apply unvalidated_widx in U. rewrite nlk_local, <- U in Wk. congruence.
+      * destruct (H3 a p x k Hab Hrel HK Hx Hf Hb) as [U Wk].
+        rewrite pc_local in U. rewrite (nostack_same (local_of s p)) by now right. auto.
+    + rewrite pc_local, nlk_local, (local_other true fr cfg s p c b Hbp), <- pc_local, <- nlk_local.
+      apply (files_other true fr cfg s p c b k Hbp) in Hb. now apply (H3 a b x k).
 Qed.
 
 End Repaired.
 
-(* ---- every reachable state satisfies the invariants *)
+Section Released.
+Variable cfg : config.
+Notation stp := (step_gen true true cfg).
 
-Lemma reachable_gen_inv fx cfg s : reachable_gen fx cfg s -> I0 s /\ I1 s /\ I2 s /\ IJ s.
+Lemma step_IT s p c : I0 s -> I1 cfg s -> IT s -> IT (stp s p c).
 Proof.
-  induction 1 as [|s p c _ (H0 & H1 & H2 & HJ)].
-  - destruct (init_inv cfg) as (? & ? & ? & ? & _). auto.
-  - repeat split; [apply step_I0 | apply step_I1 | apply step_I2 | apply step_IJ]; assumption.
+  intros H0 H1 HT q. destruct (Nat.eq_dec q p) as [->|Hne].
+  - destruct (step_cases true true cfg s p c) as [(k0 & d' & fs' & lo' & W & N & E) | (W & E)]; rewrite E, local_put_same.
+    + apply (next_clean _ _ _ _ _ _ _ _ _ N); [apply HT | | apply H0].
+      intro Ho. now apply (H1 p (widx (local_of s p)) k0).
+    + apply clean_nostack. apply HT.
+  - rewrite (local_other true true cfg s p c q Hne). apply HT.
 Qed.
 
-Lemma reachable_inv cfg s : reachable cfg s -> IN s /\ I3 cfg s.
+End Released.
+
+(* ---- every reachable state satisfies the invariants *)
+
+Lemma reachable_gen_inv fx fr cfg s :
+  wf cfg -> reachable_gen fx fr cfg s -> I0 s /\ I1 cfg s /\ I2 cfg s /\ IJ cfg s /\ IW cfg s.
 Proof.
-  induction 1 as [|s p c Hr (HN & H3)].
-  - destruct (init_inv cfg) as (_ & _ & _ & _ & ? & ?). auto.
-  - destruct (reachable_gen_inv true cfg s Hr) as (H0 & H1 & _).
+  intro WF. induction 1 as [|s p c _ (H0 & H1 & H2 & HJ & HW)].
+  - destruct (init_inv cfg) as (? & ? & ? & ? & _ & ? & _). auto.
+  - refine (conj _ (conj _ (conj _ (conj _ _))));
+      [apply step_I0 | apply step_I1 | apply step_I2 | apply step_IJ | apply step_IW]; assumption.
+Qed.
+
+Lemma reachable_fx_inv fr cfg s : wf cfg -> reachable_gen true fr cfg s -> IN s /\ I3 cfg s.
+Proof.
+  intro WF. induction 1 as [|s p c Hr (HN & H3)].
+  - destruct (init_inv cfg) as (_ & _ & _ & _ & ? & _ & _ & ?). auto.
+  - destruct (reachable_gen_inv true fr cfg s WF Hr) as (H0 & H1 & _).
     split; [apply step_IN | apply step_I3]; assumption.
+Qed.
+
+Lemma reachable_inv cfg s : wf cfg -> reachable cfg s -> IT s.
+Proof.
+  intro WF. induction 1 as [|s p c Hr HT].
+  - destruct (init_inv cfg) as (_ & _ & _ & _ & _ & _ & ? & _). auto.
+  - destruct (reachable_gen_inv true true cfg s WF Hr) as (H0 & H1 & _). now apply step_IT.
 Qed.
 
 (* ---- C09, safety *)
 
-(* no exclusive lock is ever held together with another unrelated lock: every schedule, every choice
-   of directory order, any number of processes, any retry budgets *)
-Lemma mutex_proof cfg s p q :
-  reachable cfg s -> holds s p -> holds s q -> p <> q -> ~ related cfg p q ->
+(* on every stack, no exclusive lock is ever held together with another unrelated lock: every schedule,
+   every choice of directory order, any number of processes and stacks, any retry budgets; with or without
+   the release on failure *)
+Lemma mutex_proof fr cfg s p q k :
+  wf cfg -> reachable_gen true fr cfg s -> holds s p -> holds s q -> p <> q -> ~ related cfg p q ->
+  In k (path_of cfg p) -> In k (path_of cfg q) ->
   kind_of cfg p = Sh /\ kind_of cfg q = Sh.
 Proof.
-  intros Hr Hp Hq Hpq Hrel.
-  destruct (reachable_inv cfg s Hr) as (HN & H3).
-  destruct (reachable_gen_inv true cfg s Hr) as (_ & H1 & _).
+  intros WF Hr Hp Hq Hpq Hrel Kp Kq.
+  destruct (reachable_fx_inv fr cfg s WF Hr) as (HN & H3).
+  destruct (reachable_gen_inv true fr cfg s WF Hr) as (_ & H1 & _ & _ & HW).
   assert (Hh : forall x, holds s x -> pc s x = LHeld).
   { intros x Hx. unfold holds, holdsb in Hx. pose proof (HN x) as Hn.
     destruct (pc s x); try discriminate; [reflexivity | congruence]. }
   apply Hh in Hp. apply Hh in Hq.
-  assert (Hqf : In q (files s)) by (apply H1; now rewrite Hq).
+  destruct (nth_error_in_ex _ _ Kp) as [xp Xp]. destruct (nth_error_in_ex _ _ Kq) as [xq Xq].
+  assert (Fp : firm (local_of s p) xp = true).
+  { unfold firm, local_of. cbn [lpc lnl]. rewrite Hp. apply Nat.ltb_lt.
+    rewrite (proj2 (HW p) Hp). now apply nth_error_lt in Xp. }
+  assert (Oq : owns (local_of s q) xq = true).
+  { apply firm_owns. unfold firm, local_of. cbn [lpc lnl]. rewrite Hq. apply Nat.ltb_lt.
+    rewrite (proj2 (HW q) Hq). now apply nth_error_lt in Xq. }
+  assert (Hqf : In q (files s k)) by now apply (H1 q xq k).
   destruct (kind_of cfg p) eqn:Ep, (kind_of cfg q) eqn:Eq; try (split; reflexivity); exfalso.
-  - assert (U : unvalidated (pc s q) = true) by (apply (H3 p q); auto). rewrite Hq in U. discriminate.
-  - assert (U : unvalidated (pc s q) = true) by (apply (H3 p q); auto). rewrite Hq in U. discriminate.
-  - assert (U : unvalidated (pc s q) = true) by (apply (H3 p q); auto). rewrite Hq in U. discriminate.
+  - destruct (H3 p q xp k Hpq Hrel (or_intror Eq) Xp Fp Hqf) as [U _]. rewrite Hq in U. discriminate.
+  - destruct (H3 p q xp k Hpq Hrel (or_introl Ep) Xp Fp Hqf) as [U _]. rewrite Hq in U. discriminate.
+  - destruct (H3 p q xp k Hpq Hrel (or_introl Ep) Xp Fp Hqf) as [U _]. rewrite Hq in U. discriminate.
 Qed.
 
-(* when no process is inside takeLocks or giveLocks the lock directory is gone; true of both protocols *)
-Lemma no_residue_proof fx cfg s :
-  reachable_gen fx cfg s -> quiescent s -> dir s = false /\ files s = [].
+(* a process that has ended owns no lock file on any stack *)
+Lemma ended_owns_nothing cfg s p k :
+  wf cfg -> reachable cfg s -> terminal (pc s p) = true -> ~ In p (files s k).
 Proof.
-  intros Hr Hq. destruct (reachable_gen_inv fx cfg s Hr) as (_ & _ & H2 & HJ).
-  assert (F : files s = []).
-  { destruct (files s) as [|x r] eqn:E; [reflexivity|]. exfalso.
-    assert (Hx : has_file (pc s x) = true) by (apply H2; rewrite E; now left).
-    specialize (Hq x). destruct (pc s x); cbn in Hx, Hq; discriminate. }
+  intros WF Hr Ht Hin.
+  destruct (reachable_gen_inv true true cfg s WF Hr) as (_ & _ & H2 & _).
+  pose proof (reachable_inv cfg s WF Hr p) as C. unfold clean in C. rewrite <- pc_local in C. specialize (C Ht).
+  destruct (H2 p k Hin) as (x & _ & Ho). unfold owns in Ho. rewrite <- pc_local in Ho.
+  rewrite <- nlk_local, <- cur_local in *.
+  destruct (pc s p); try discriminate; apply andb_true_iff in Ho; destruct Ho as [A B];
+    apply Nat.leb_le in A; apply Nat.ltb_lt in B; lia.
+Qed.
+
+(* when no process is inside takeLocks or giveLocks no lock directory exists *)
+Lemma no_residue_proof cfg s k :
+  wf cfg -> reachable cfg s -> quiescent s -> dir s k = false /\ files s k = [].
+Proof.
+  intros WF Hr Hq.
+  destruct (reachable_gen_inv true true cfg s WF Hr) as (_ & _ & H2 & HJ & _).
+  assert (F : files s k = []).
+  { destruct (files s k) as [|x r] eqn:E; [reflexivity|]. exfalso.
+    assert (Hin : In x (files s k)) by (rewrite E; now left).
+    specialize (Hq x). unfold idle in Hq. rewrite <- pc_local, <- nlk_local in Hq.
+    destruct (pc s x) eqn:L; try discriminate;
+      try (apply (ended_owns_nothing cfg s x k WF Hr); [rewrite L; reflexivity | assumption]).
+    apply Nat.eqb_eq in Hq. destruct (H2 x k Hin) as (y & _ & Ho). unfold owns in Ho.
+    rewrite <- pc_local, L, <- nlk_local, Hq in Ho. discriminate. }
   split; [|assumption].
-  destruct (dir s) eqn:D; [|reflexivity]. exfalso.
-  destruct (HJ D) as [Hne | [x Hx]]; [contradiction|].
-  specialize (Hq x). destruct (pc s x); cbn in Hx, Hq; discriminate.
+  destruct (dir s k) eqn:D; [|reflexivity]. exfalso.
+  destruct (HJ k D) as [Hne | (x & Hx & _)]; [contradiction|].
+  specialize (Hq x). unfold idle in Hq. rewrite <- pc_local in Hq. destruct (pc s x); cbn in Hx; discriminate.
 Qed.
